@@ -817,7 +817,7 @@ def gen_c2_case(rng: Rng) -> dict:
             "node_on": not rng.chance(1, 8), "health": rng.choice(["GOOD"] * 5 + ["COMPROMISED", "FIXING", "OVERWHELMED"]),
             "active": not rng.chance(1, 6), "remote": not rng.chance(1, 5), "freq": freq,
             "inact": rng.choice([0, 0, max(freq - 1, 0), max(freq - 1, 0), freq, freq + 1, rng.below(freq + 2)]),
-            "attempted": rng.chance(1, 4), "reply": rng.chance(1, 2)}
+            "attempted": rng.chance(1, 4), "reply": rng.chance(1, 2), "nic_on": rng.chance(2, 3)}
 
 
 def run_c2_case(case: dict) -> dict:
@@ -864,6 +864,8 @@ def run_c2_case(case: dict) -> dict:
     if case["health"] == "FIXING":
         app._fixing_countdown = 3
     node.operating_state = NodeOperatingState.ON if case["node_on"] else NodeOperatingState.OFF
+    for nic in node.network_interface.values():   # an unlinked NIC cannot be enabled through the API: set the flag
+        nic.enabled = bool(case.get("nic_on", False))
     b = lambda x: 1 if x else 0   # noqa
     running, good = case["state"] == "RUNNING", case["health"] == "GOOD"
     can_net = bool(app._can_perform_network_action())
@@ -886,4 +888,4 @@ def run_c2_case(case: dict) -> dict:
     if counter["closed"] and app.operating_state.name != "CLOSED":
         oracle.append(("c2-close-did-not-close", f"operating state {app.operating_state.name} after close()"))
     return {"lines": lines, "impl": impl, "oracle": oracle, "sent": counter["sent"], "closed": counter["closed"],
-            "acts": running and good and case["active"]}
+            "acts": running and good and case["active"], "allowed": allowed}
